@@ -193,7 +193,9 @@ def text_name(labels):
     """master-file spelling of a label list (load cases use letters and digits only)"""
     if len(labels) == 0:
         return "@"
-    return ".".join(l.decode("ascii") if l else "" for l in labels)
+    if labels[-1] == b"":
+        return ".".join(l.decode("ascii") for l in labels[:-1]) + "."
+    return ".".join(l.decode("ascii") for l in labels)
 
 
 def rdata_text(ty, cov, alt=False):
@@ -207,7 +209,7 @@ def load_text(case):
     origin = [bytes.fromhex(x) for x in case["origin"]]
     lines = []
     if case["load"]["origin_from_text"]:
-        lines.append("$ORIGIN " + (text_name(origin) if origin != [b""] else "."))
+        lines.append("$ORIGIN " + text_name(origin))
     seen = set()
     for item in case["items"]:
         f = item.split(":")
@@ -541,14 +543,30 @@ def init_bit():
     return _variant_cache["init"]
 
 
+def model_items(case):
+    """items as given to the model.  For a load from text the reader normalises owner names before they reach the
+    transaction, so the SOA line is given to the model in the zone's own relativity (the SOA-owner check of the
+    transaction layer is outside C20 and differs between tree versions)."""
+    if not case.get("load"):
+        return case["items"]
+    apex_spelling = enc_labels([] if case["rel"] else [bytes.fromhex(x) for x in case["origin"]])
+    out = []
+    for it in case["items"]:
+        f = it.split(":")
+        if f[0] == "p" and f[2] == "6":
+            it = f"p:{apex_spelling}:6:0"
+        out.append(it)
+    return out
+
+
 def op_line(case, variant):
     return (f"{'c20.load' if case.get('load') else 'c20.hist'} {1 if case['rel'] else 0} {enc_labels([bytes.fromhex(x) for x in case['origin']])} {variant} "
-            f"{init_bit()} " + " ".join(case["items"]))
+            f"{init_bit()} " + " ".join(model_items(case)))
 
 
 def spec_line(case):
     return (f"c20.spec {1 if case['rel'] else 0} {enc_labels([bytes.fromhex(x) for x in case['origin']])} "
-            f"{init_bit()} " + " ".join(case["items"]))
+            f"{init_bit()} " + " ".join(model_items(case)))
 
 
 def eval_case(ctx: Ctx, case: dict):
@@ -556,7 +574,9 @@ def eval_case(ctx: Ctx, case: dict):
     trace, spec, fails, stats = evaluate(case)
     ctx.corr(op_line(case, variant), trace, case)
     ctx.corr(spec_line(case), spec, case)
-    _guard_queue.append((op_line(case, variant).replace("c20.load", "c20.guard", 1).replace("c20.hist", "c20.guard", 1), stats.pop("marks"), case))
+    if not trace.startswith("ok LOAD!"):
+        _guard_queue.append((op_line(case, variant).replace("c20.load", "c20.guard", 1).replace("c20.hist", "c20.guard", 1), stats.pop("marks"), case))
+    stats.pop("marks", None)
     if len(_guard_queue) >= 20000:
         flush_guards(ctx)
     for k, n in stats.items():
